@@ -96,8 +96,17 @@ def linestart_ops():
     )
 
 
+def mixed_case_names():
+    """library / use names, keywords and identifiers written in upper and mixed case, a use clause without library clause"""
+    return (
+        "LIBRARY IEEE;\nUSE IEEE.STD_LOGIC_1164.ALL;\nuse IEEE.numeric_std.all;\nuse work.my_pkg.all;\n\nENTITY Mixed IS\n  PORT (\n    A : IN std_logic;\n    B : OUT STD_LOGIC\n  );\nEND ENTITY Mixed;\n\n"
+        + "ARCHITECTURE Rtl OF Mixed IS\n\n  SIGNAL Sig_One : STD_LOGIC;\n  CONSTANT C_Val : INTEGER := 16#FF#;\n\nBEGIN\n\n  Sig_One <= A WHEN A = 'X' ELSE 'Z';\n  B <= Sig_One;\n\nEND ARCHITECTURE Rtl;\n"
+    )
+
+
 def all_designs():
     d = {}
+    d["mixed_case_names"] = mixed_case_names()
     d["tight_spacing"] = tight_spacing()
     d["case_align"] = case_align()
     d["linestart_ops"] = linestart_ops()
